@@ -143,7 +143,11 @@ class Ref:
             if kind == 'input':
                 terms = [val(o2.name, var) for o2 in ops if o2.name != opname and o2.output == var]
                 if not terms:
-                    return src
+                    m = e.var_map.get(var, 'source') if e.var_map else 'source'
+                    if m == 'source':
+                        return src
+                    pn, po, pv = m.rsplit('/', 2)
+                    return ref.value(pn, po, pv)
                 s = terms[0]
                 for t in terms[1:]:
                     s = s + t
